@@ -57,6 +57,14 @@ def cancel_partner(r, a):
     k = r.below(110)
     if k == 0:
         return (-h, -l)
+    if k < 12 and h != 0:
+        # high words cancel exactly, the low words are unrelated (different magnitudes, spanning > 53 bits)
+        u = fp.ulp(h)
+        e = math.frexp(float(u))[1] - 2 - r.choice([0, 0, 1, r.rng(0, 30), r.rng(30, 120)])
+        nl = fp.mant_exp(r, max(-1074, e))
+        if abs(Fr(nl)) * 2 > u:
+            nl = 0.0
+        return (-h, nl) if fp.is_valid(-h, nl) else (-h, -l)
     if k < 53:
         d = fp.ulp(h) * r.rng(1, 3) * (2 ** (52 - k)) if h != 0 else Fr(0)
         nh = fp.rn(-Fr(h) + d * r.choice([1, -1]))
@@ -86,6 +94,11 @@ def gen_C02(r, n):
             b = fp.any_f64(r, finite=True)
         for op in ('new_add', 'new_sub', 'new_mul'):
             c.add('TwoFloat.%s %s %s' % (op, hx(a), hx(b)), op=op)
+        if r.below(2) == 0:
+            k1 = r.rng(1, 52)
+            sa, sb = short_sig(r, k1, -400, 400), short_sig(r, max(1, min(53, 53 - k1 + r.rng(-2, 3))), -400, 400)
+            for op in ('new_add', 'new_sub', 'new_mul'):
+                c.add('TwoFloat.%s %s %s' % (op, hx(sa), hx(sb)), op=op)
         a2, b2 = f_in(r, -480, 480, zero=False), f_in(r, -480, 480, zero=False)
         c.add('TwoFloat.new_div %s %s' % (hx(a2), hx(b2)), op='new_div')
         x = fp.any_f64(r)
@@ -199,9 +212,28 @@ def sum_followup(c, ans):
     c2 = Cases()
     return c2
 
+def short_sig(r, bits, emin, emax):
+    m = (r.next() & ((1 << bits) - 1)) | (1 << (bits - 1)) | 1
+    if r.below(4) == 0:
+        m = (1 << bits) - 1 - 2 * r.below(3)
+    return math.ldexp(float(m), r.rng(emin, emax - bits)) * r.choice([1, -1])
+
+def short_pairs(r, n, emin, emax):
+    """factors whose significand lengths sum to about 53: the boundary between exact and inexact products"""
+    for _ in range(n):
+        k1 = r.rng(1, 52)
+        k2 = max(1, min(53, 53 - k1 + r.rng(-2, 3)))
+        x, y = short_sig(r, k1, emin, emax), short_sig(r, k2, emin, emax)
+        la = r.choice([0.0, fp.rn(fp.ulp(x) / 2 ** r.rng(2, 40)) * r.choice([1, -1])])
+        lb = r.choice([0.0, fp.rn(fp.ulp(y) / 2 ** r.rng(2, 40)) * r.choice([1, -1])])
+        a = (x, la) if fp.is_valid(x, la) else (x, 0.0)
+        b = (y, lb) if fp.is_valid(y, lb) else (y, 0.0)
+        yield a, b
+
 def gen_C04(r, n):
     c = Cases()
-    for a, b in arith_pairs(r, n, -450, 450):
+    import itertools
+    for a, b in itertools.chain(arith_pairs(r, n, -450, 450), short_pairs(r, n // 2, -300, 300)):
         c.add('%s %s %s' % (TT('Mul'), w2(a), w2(b)), kind='tt')
         c.add('%s %s %s' % (asgname('Mul', 'rTwoFloat'), w2(a), w2(b)), kind='tt')
         f = b[0] if b[0] != 0 or r.below(2) else 1.5
@@ -253,9 +285,20 @@ def chk_C04(c, ans):
             out.append(fail(i, 'mul_bound_' + m['kind'], fmt_err(R, ex)))
     return out
 
+def pow2_divisors(r, n):
+    for _ in range(n):
+        a = tf_in(r, -450, 450, zero=False)
+        k = r.rng(-440, 440)
+        h = math.ldexp(1.0, k) * r.choice([1, -1])
+        l = fp.rn(fp.ulp(h) / 2 ** r.rng(1, 60)) * r.choice([1, -1])
+        if r.below(3) == 0:
+            l = -abs(l) if h > 0 else abs(l)
+        yield a, ((h, l) if fp.is_valid(h, l) else (h, 0.0))
+
 def gen_C05(r, n):
     c = Cases()
-    for a, b in arith_pairs(r, n, -450, 450):
+    import itertools
+    for a, b in itertools.chain(arith_pairs(r, n, -450, 450), pow2_divisors(r, n // 3), short_pairs(r, n // 3, -300, 300)):
         if b[0] == 0:
             b = (1.5, 0.0)
         a = a if a[0] != 0 or r.below(4) else (3.0, 0.0)
@@ -626,6 +669,12 @@ def gen_C08(r, n):
             u = fp.ulp(hi)
             cand = [0.5, -0.5, 1.0, -1.0, 1.5, -1.5, 0.25, -0.25, 1e-200, -1e-200, 0.75, 2.5, -2.5, float(r.rng(-1000, 1000)) / 4]
             lo = r.choice(cand)
+            kk = r.below(4)
+            if kk == 0:
+                # immediate neighbours of the (half-)integers: where an added 0.5 or a comparison with 0.5 rounds
+                lo = math.nextafter(lo, r.choice([math.inf, -math.inf]))
+            elif kk == 1 and fp.POOL:
+                lo = fp.from_pool(r)
             if r.below(3) == 0:
                 lo = fp.mant_exp(r, r.rng(-60, max(-59, e - 54)))
             s, t = fp.two_sum(hi, lo)
@@ -696,6 +745,13 @@ def gen_C09(r, n, thorough=False):
                     v = (M << s_) + (1 << (s_ - 1)) + d
                     v = v if (lo == 0 or r.below(2)) else -v
                     vals.append(min(hi, max(lo, v)))
+                # just below 2^N: where `n as f64` rounds up to the power of two (the special branch of the conversion)
+                for j in range(0, hi.bit_length() - 40):
+                    for d in (-1, 0, 1):
+                        v = (1 << hi.bit_length()) - (1 << j) + d
+                        vals.append(min(hi, max(lo, v)))
+                        if lo < 0:
+                            vals.append(min(hi, max(lo, -v)))
         for v in vals:
             c.add('convert.impl_From_%s_for_TwoFloat.from %d' % (ty, v), kind='from', ty=ty, v=v)
         # try_from near the boundaries and random
@@ -992,7 +1048,17 @@ def gen_C10(r, n):
             gid += 1
             c.add('%s %s' % (tn, ' '.join(w)), group=(gid, 'trait', tn), role='form')
             c.add('%s %s' % (inh, ' '.join(w)), group=(gid, 'trait', tn), role='form')
-        # mul_add(a, b) == self*a + b : needs a second round
+        # the same trait methods called through the trait object path regardless of overrides (provided defaults)
+        for tr_, meth, arity in [('FloatCore', m_, 2) for m_ in ('min', 'max')] + [('Float', m_, 2) for m_ in ('min', 'max', 'copysign')] + \
+                [('FloatCore', m_, 1) for m_ in ('recip', 'to_degrees', 'to_radians', 'abs', 'signum', 'floor', 'ceil', 'round', 'trunc', 'fract', 'is_sign_positive', 'is_sign_negative')] + \
+                [('Float', m_, 1) for m_ in ('to_degrees', 'to_radians', 'abs', 'signum', 'recip')]:
+            if r.below(3):
+                continue
+            gid += 1
+            x, y = r.choice([a, b, fp.any_tf(r)]), r.choice([a, b, fp.any_tf(r)])
+            args = w2(x) if arity == 1 else '%s %s' % (w2(x), w2(y))
+            c.add('tr.%s.%s %s' % (tr_, meth, args), group=(gid, 'trait', tr_ + '::' + meth), role='form', impl_only=True)
+            c.add('TwoFloat.%s %s' % (meth, args), group=(gid, 'trait', tr_ + '::' + meth), role='form')
         gid += 1
     return c
 
